@@ -54,6 +54,27 @@ fn seq_case(idx: u64, alg: Algorithm, a: &[u32], b: &[u32], threads: bool, out: 
         orders.insert(o);
     }
     vh::record_unique_orders(false);
+    // no state may leak from one call into the next on the same thread: diff other inputs in
+    // between (the reversed pair, a shifted pair, an expired-deadline diff) and ask again
+    {
+        let _ = guard(|| capture_diff_slices(alg, b, a));
+        let shifted: Vec<u32> = a.iter().map(|x| x.wrapping_add(1)).collect();
+        let _ = guard(|| capture_diff_slices(alg, &shifted, b));
+        let past = std::time::Instant::now().checked_sub(std::time::Duration::from_secs(1));
+        let _ = guard(|| similar::capture_diff_slices_deadline(alg, a, b, past));
+        out.evals_add(4);
+        match guard(|| capture_diff_slices(alg, a, b)) {
+            Ok(o) => {
+                if o != base {
+                    out.violation(
+                        "determinism.depends_on_previous_calls",
+                        format!("after diffing other inputs (and one diff with an expired deadline) on the same thread the same call returns {} instead of {} | {}", fmt_ops(&o), fmt_ops(&base), ctx()),
+                    );
+                }
+            }
+            Err(p) => out.violation("panic", format!("{} | {}", p, ctx())),
+        }
+    }
     if alg == Algorithm::Patience {
         out.count("patience_inputs");
         if orders.len() >= 2 {
@@ -116,6 +137,36 @@ fn seq_case(idx: u64, alg: Algorithm, a: &[u32], b: &[u32], threads: bool, out: 
             }
         }
         Err(p) => out.violation("panic", format!("{} | {}", p, ctx())),
+    }
+    // aliasing must not matter: old and new as two views of ONE buffer with a common start
+    // (prefix vs whole) give the ops of the same items held in separate vectors
+    {
+        let k = a.len().min(b.len());
+        let (short, long) = if a.len() <= b.len() { (&a[..], &b[..]) } else { (&b[..], &a[..]) };
+        if short == &long[..k] {
+            // already prefix-shaped: compare directly
+        }
+        let buf: Vec<u32> = long.to_vec();
+        let cut = if buf.is_empty() { 0 } else { (idx as usize * 7 + 3) % (buf.len() + 1) };
+        let copy_short: Vec<u32> = buf[..cut].to_vec();
+        out.evals_add(4);
+        let aliased = guard(|| capture_diff_slices(alg, &buf[..cut], &buf[..]));
+        let separate = guard(|| capture_diff_slices(alg, &copy_short[..], &buf[..]));
+        let aliased_rev = guard(|| capture_diff_slices(alg, &buf[..], &buf[..cut]));
+        let separate_rev = guard(|| capture_diff_slices(alg, &buf[..], &copy_short[..]));
+        for (x, y, what) in [(&aliased, &separate, "prefix vs whole"), (&aliased_rev, &separate_rev, "whole vs prefix")] {
+            match (x, y) {
+                (Ok(x), Ok(y)) => {
+                    if x != y {
+                        out.violation(
+                            "determinism.aliased_inputs",
+                            format!("{}: two views of one buffer give {} but the same items in separate vectors give {} | buffer={} cut={}", what, fmt_ops(x), fmt_ops(y), fmt_seq(&buf), cut),
+                        );
+                    }
+                }
+                (Err(p), _) | (_, Err(p)) => out.violation("panic", format!("{} | {}", p, ctx())),
+            }
+        }
     }
     // capture_diff on the full range and the raw stream are the same computation
     out.eval();
